@@ -9,11 +9,12 @@ import (
 	"strings"
 
 	"golang.org/x/tools/go/packages"
+	"golang.org/x/tools/go/ssa"
 	"golang.org/x/tools/go/types/typeutil"
 )
 
 func init() {
-	register("C05", false, false, checkC05)
+	register("C05", false, true, checkC05)
 }
 
 type callSite struct {
@@ -101,7 +102,7 @@ func checkC05(w *World, tier string) *Report {
 	r.Explanation = "Rules on (*EVM).Call (go/cfg paths, go/types resolved callees): R5.1 who-may-call — PreContractCall and PostContractCall each have exactly one call site in the fork, both in Call, neither inside a loop or a closure; " +
 		"R5.2 edge dominance — on every path reaching either site the literals `not a precompile`, `code non-empty`, `IsExecuteJP` hold; R5.3 ordering on all paths — pre site before interpreter.Run and never after it, post site after Run exactly once, neither Run nor the post site reachable after the pre result reported an error, every path from Run with join points enabled crosses the post site before returning; " +
 		"R5.4 argument provenance — From/To/Data/Value/Gas/Index of both input messages and the positional arguments are built from exactly the parameters caller, addr, input, value, the variable gas and this frame's call-tree node (obtained right after this frame's SaveCall with no intervening call that can move the cursor); the parameters are never re-assigned; post: Ret is the variable assigned from Run, Error the text of err under err != nil. " +
-		"LIFO nesting follows from R5.3 plus recursion (Run is the only way to a nested Call). R5.5 ownership of the enable flag — EVM.IsExecuteJP is written only by the constructor literal and by setter methods whose whole body is one constant assignment to it, and no code of the fork calls those setters or takes the flag's address: the flag is the host's, so a frame cannot leave it switched off for the frames that follow (e.g. on an early return between a switch-off and a switch-on). Does not decide what aspect-core does with the call, nor a host toggling IsExecuteJP between the two sites."
+		"LIFO nesting follows from R5.3 plus recursion (Run is the only way to a nested Call). R5.6 (may-alias roots, SSA) the value handed to a frame entry point by the call/create instructions is a fresh big number or a shared constant — never a cell of the interpreter, the stack or memory that a nested frame rewrites while the outer frame still holds the pointer for its post-call join point; R5.5 ownership of the enable flag — EVM.IsExecuteJP is written only by the constructor literal and by setter methods whose whole body is one constant assignment to it, and no code of the fork calls those setters or takes the flag's address: the flag is the host's, so a frame cannot leave it switched off for the frames that follow (e.g. on an early return between a switch-off and a switch-on). Does not decide what aspect-core does with the call, nor a host toggling IsExecuteJP between the two sites."
 	// R5.1
 	for _, k := range []string{"PreContractCall", "PostContractCall"} {
 		sites := w.callSitesOf(func(f *types.Func) bool { return f.Name() == k })
@@ -130,6 +131,7 @@ func checkC05(w *World, tier string) *Report {
 	r.need("R5.3", 3)
 	addR54(w, r)
 	addR55(w, r)
+	addR56(w, r)
 	r.Assumptions = append(r.Assumptions, "the host does not toggle EVM.IsExecuteJP between the pre and post site of one call", "aspect-core's handling of the message (number and order of Aspects) is external")
 	return r
 }
@@ -467,4 +469,65 @@ func addR55(w *World, r *Report) {
 		r.violated("R5.5", "setter-caller:"+s.fn, w.pos(s.call.Pos()), "the fork itself switches the join-point enable flag (call of a setter in "+s.fn+"): frames running until it is switched back fire no join points, and an early return in between leaves it off")
 	}
 	r.need("R5.5", 3)
+}
+
+
+// addR56: *big.Int arguments of the frame entry points at their call sites inside the fork are fresh.
+func addR56(w *World, r *Report) {
+	eng := w.aliasEngine()
+	entry := map[string]bool{"Call": true, "CallCode": true, "Create": true, "Create2": true, "create": true, "DelegateCall": true, "StaticCall": true}
+	n := 0
+	for _, fn := range w.forkFuncsAll() {
+		top := fn
+		for top.Parent() != nil {
+			top = top.Parent()
+		}
+		if top.Pkg == nil || top.Pkg.Pkg.Path() != forkPath(pkVM) {
+			continue // hosts (vm/runtime, tests) pass values they own
+		}
+		ord := 0
+		for _, b := range fn.Blocks {
+			for _, ins := range b.Instrs {
+				c, ok := ins.(*ssa.Call)
+				if !ok {
+					continue
+				}
+				cal := c.Call.StaticCallee()
+				if cal == nil || !entry[cal.Name()] || cal.Signature.Recv() == nil || typeBaseName(cal.Signature.Recv().Type()) != "EVM" {
+					continue
+				}
+				for i, arg := range c.Call.Args {
+					if !isBignumPtr(arg.Type()) {
+						continue
+					}
+					ord++
+					n++
+					key := fmt.Sprintf("%s/value-arg#%d->%s", relName(fn), ord, cal.Name())
+					var bad []string
+					for _, rt := range eng.rootsOf(arg, map[ssa.Value]bool{}) {
+						switch {
+						case rt.param != nil && rt.param.Parent() == fn && fn.Signature.Recv() != nil && typeBaseName(fn.Signature.Recv().Type()) == "EVM":
+							// an entry point forwarding its own value parameter (Create -> create): judged at the outer call site
+						case rt.param != nil:
+							bad = append(bad, "storage reachable from parameter "+rt.param.Name()+" of "+relName(rt.param.Parent()))
+						case rt.field != "":
+							bad = append(bad, "field "+rt.field)
+						case rt.src != nil:
+							bad = append(bad, borrowSource(rt.src))
+						case rt.free != nil:
+							bad = append(bad, "captured variable "+rt.free.Name())
+						}
+					}
+					_ = i
+					if len(bad) > 0 {
+						r.violated("R5.6", key, w.pos(c.Pos()), "the value handed to "+cal.Name()+" may alias "+strings.Join(dedup(bad), ", ")+": a nested frame can rewrite it while the outer frame still reads it (post-call join point, recorder)")
+					} else {
+						r.holds("R5.6", key, w.pos(c.Pos()), "fresh big number or shared constant")
+					}
+				}
+			}
+		}
+	}
+	r.need("R5.6", 4)
+	_ = n
 }
